@@ -754,6 +754,19 @@ pub fn cmd_check(prop: &str, tier: &str, xen_bin: Option<&str>) -> i32 {
             harness_errors.push(format!("{}: no seam event in the whole batch (hooks not compiled in?)", pr.scenario));
         }
     }
+    // replay files of violations that were not reported (duplicates of a reported class) go away
+    let kept: BTreeSet<String> = violation_lines.iter().filter_map(|l| l.split("replay=").nth(1).map(|s| s.to_string())).collect();
+    for (_, pr) in &parts {
+        for f in &pr.found {
+            for k in ["min", "orig"] {
+                if let Some(p) = f.get(k).and_then(|v| v.as_str()) {
+                    if !kept.contains(p) {
+                        let _ = std::fs::remove_file(p);
+                    }
+                }
+            }
+        }
+    }
     let mut known_seen: BTreeMap<String, u64> = BTreeMap::new();
     for (_, pr) in &parts {
         for (k, v) in &pr.known_seen {
